@@ -431,6 +431,8 @@ class Executor:
             x = self.const_value(st, sv)
             if op in ("bitcast",):
                 return x
+            if op == "inttoptr" and isinstance(x, int):
+                return Ptr(0, x)        # dangling pointer constant (empty slices)
             raise Unsupported("constant cast " + op)
         if k == "bytes":
             return list(v[1])
